@@ -38,7 +38,7 @@ def _latchers(rng):
 
 def generate(rng, tier):
     cases = []
-    reps = 1 if tier == "quick" else 4
+    reps = 1 if tier == "quick" else 10
     for _ in range(reps):
         for name, calls, events in _latchers(rng):
             for m in S.ALL_REQUESTS:
@@ -80,7 +80,7 @@ def generate(rng, tier):
                         calls += [("connect", S.GOOD_PORTS, None), S.random_call(rng)]
                     cases.append({"calls": calls, "events": ev, "close_raises": close_raises,
                                   "family": "closed:%s%s/%s" % (closer[0], "+close-fault" if close_raises else "", m)})
-    n = 250 if tier == "quick" else 5000
+    n = 250 if tier == "quick" else 15000
     for _ in range(n):
         calls = [("connect", S.GOOD_PORTS, rng.choice([None, None, "Bot", "/dev/ttyACM0"]))]
         for _ in range(rng.randint(1, 11)):
@@ -99,8 +99,10 @@ def coq_case(c, r):
     if "raise" in r or any(o["raised"] == "RecordedErrorErased" for o in r["obs"]):
         # the harness could not run the history, or an error that was recorded during a call had vanished when the call returned
         # ("the recorded message is never replaced" - nor dropped): no reading of the observations can satisfy the property
-        return "(K04 %s [] [(CStatus, mkobs true RNone [] None false None 0%%nat)])" % S.coq_cfg(*CFG)
-    return "(K04 %s %s %s)" % (S.coq_cfg(*CFG), S.coq_script(c["events"]), S.coq_history(c["calls"], r["obs"]))
+        return "(K04 %s [] [(CStatus, mkobs true RNone [] None false None 0%%nat)] [])" % S.coq_cfg(*CFG)
+    from common import clist, cb
+    return "(K04 %s %s %s %s)" % (S.coq_cfg(*CFG), S.coq_script(c["events"]), S.coq_history(c["calls"], r["obs"]),
+                                  clist([cb(bool(o.get("read_err"))) for o in r["obs"]]))
 
 def nontrivial(c, r):
     obs = r.get("obs", [])
